@@ -233,7 +233,7 @@ def build(area, L, exclude=()):
             elif form == "uuid":
                 parts.append({"RFC4122_UUID": L.text(f"u{i}", 1)})
             else:
-                parts.append({"raw": L.hex(f"r{i}", 3)})
+                parts.append({"raw": L.hex(f"r{i}", L.sel(f"rlen{i}", [3, 16]))})
         return "SuitComponentIdentifier", "component_id", parts
     if area == "common":
         d = {}
